@@ -355,6 +355,10 @@ macro_rules! boundary_harnesses {
                 // heap-backed with short contents -> clone goes back to the inline representation
                 let w = v.clone();
                 check_contents(&w, &ids, m);
+                // same contents, different representation histories: still equal, as for Vec
+                assert!(v == w);
+                assert!(w == v);
+                assert!(v.cmp(&w) == core::cmp::Ordering::Equal);
                 drop(w);
                 drop(v);
                 accounting_ok();
